@@ -186,7 +186,7 @@ escape(struct scanner *s)
 			if (isodigit(s->chr))
 				nextchar(s);
 		}
-	} else if (strchr("'\"?\\abfnrtv", s->chr)) {
+	} else if (s->chr && strchr("'\"?\\abfnrtv", s->chr)) {
 		nextchar(s);
 	} else {
 		error(&s->loc, "invalid escape sequence");
@@ -208,6 +208,8 @@ charconst(struct scanner *s)
 			return TCHARCONST;
 		case '\n':
 			error(&s->loc, "newline in character constant");
+		case '\0':
+			error(&s->loc, "null byte in character constant");
 		case EOF:
 			error(&s->loc, "EOF in character constant");
 		default:
@@ -232,6 +234,8 @@ stringlit(struct scanner *s)
 			return TSTRINGLIT;
 		case '\n':
 			error(&s->loc, "newline in string literal");
+		case '\0':
+			error(&s->loc, "null byte in string literal");
 		case EOF:
 			error(&s->loc, "EOF in string literal");
 		default:
